@@ -160,6 +160,54 @@ def k4f : VLit := ⟨['5', 'x'], some "http://www.w3.org/2001/XMLSchema#integer"
 theorem lit_order_illtyped_cycle :
     pyLt k4d k4e = true ∧ pyLt k4e k4f = true ∧ pyLt k4f k4d = true := by decide
 
+/-! ## between classes: datatype IRI, then language tag -/
+
+/-- outside the numeric fast path, literals of different datatypes (plain = xsd:string) order as their datatype IRIs, and
+    literals of one datatype with different language tags (up to case) order untagged first, then as the lower-cased tags;
+    `<` is the converse of `>` there -/
+def Statement_lit_class_order : Prop :=
+  ∀ a b : VLit, fastOK a b = false →
+    (a.cdt ≠ b.cdt → pyGt a b = strLt b.cdt a.cdt ∧ pyLt a b = strLt a.cdt b.cdt) ∧
+    (a.cdt = b.cdt → langKey a.lang ≠ langKey b.lang →
+      pyGt a b = optStrGt (langKey a.lang) (langKey b.lang) ∧ pyLt a b = optStrGt (langKey b.lang) (langKey a.lang))
+
+theorem lit_class_order : Statement_lit_class_order := by
+  intro a b hf
+  have hf' : fastOK b a = false := by rw [fastOK_symm]; exact hf
+  refine ⟨fun hc => ?_, fun hc hl => ?_⟩
+  · have hc' : ¬ b.cdt = a.cdt := fun e => hc e.symm
+    have hg : litGtV a b = strLt b.cdt a.cdt := by simp [litGtV, hf, gtGeneral, hc]
+    have he : litEqV a b = some false := by
+      simp only [litEqV, hf]
+      by_cases hl : langKey a.lang = langKey b.lang
+      · have : ¬ (a.cdt = Tables.xsdString ∧ b.cdt = Tables.xsdString) := fun h => hc (h.1.trans h.2.symm)
+        simp [hl, this, hc]
+      · simp [hl]
+    refine ⟨hg, ?_⟩
+    simp only [pyLt, litLtV, hg, he]
+    cases h1 : strLt b.cdt a.cdt with
+    | true => simp [strLt_asymm h1]
+    | false =>
+      rcases strLt_connected hc with h | h
+      · simp [h]
+      · rw [h1] at h; cases h
+  · have hl' : ¬ langKey b.lang = langKey a.lang := fun e => hl e.symm
+    have hg : litGtV a b = optStrGt (langKey a.lang) (langKey b.lang) := by simp [litGtV, hf, gtGeneral, hc, hl]
+    have he : litEqV a b = some false := by simp [litEqV, hf, hl]
+    refine ⟨hg, ?_⟩
+    simp only [pyLt, litLtV, hg, he]
+    cases h1 : optStrGt (langKey a.lang) (langKey b.lang) with
+    | true => simp [optStrGt_asymm h1]
+    | false =>
+      simp only [Bool.false_eq_true, if_false, Option.map_some, Bool.not_false]
+      revert h1 hl
+      cases langKey a.lang <;> cases langKey b.lang <;> simp [optStrGt]
+      rename_i x y
+      intro hxy h1
+      rcases strLt_connected hxy with h | h
+      · exact h
+      · rw [h1] at h; cases h
+
 /-! ## `sorted()` on a family -/
 
 /-- sorting the members of a family with `<`: the result is an increasing rearrangement; two input orders give
